@@ -598,8 +598,9 @@ def export_dxf(path, only_layers=None):
             group = group[:, :2]
             three = three[:, :2]
         # join into result string
+        # `repr` is the shortest string that reads back as the same float
         packed = "\n".join(
-            f"{g:d}\n{v:.12g}" for g, v in zip(group.reshape(-1), three.reshape(-1))
+            f"{g:d}\n{float(v)!r}" for g, v in zip(group.reshape(-1), three.reshape(-1))
         )
 
         return packed
@@ -670,8 +671,11 @@ def export_dxf(path, only_layers=None):
         center = info.center
         if len(center) == 2:
             center = np.append(center, 0.0)
-        data = "10\n{:.12g}\n20\n{:.12g}\n30\n{:.12g}".format(*center)
-        data += f"\n40\n{info.radius:.12g}"
+        # `repr` is the shortest string that reads back as the same float: the
+        # end points of the arc are rebuilt from these numbers on import and
+        # have to land on the end points of its neighbours
+        data = "10\n{!r}\n20\n{!r}\n30\n{!r}".format(*(float(c) for c in center))
+        data += f"\n40\n{float(info.radius)!r}"
 
         if arc.closed:
             subs["TYPE"] = "CIRCLE"
@@ -680,7 +684,9 @@ def export_dxf(path, only_layers=None):
             # an arc is the same as a circle, with an added start
             # and end angle field
             data += "\n100\nAcDbArc"
-            data += "\n50\n{:.12g}\n51\n{:.12g}".format(*np.degrees(info.angles))
+            data += "\n50\n{!r}\n51\n{!r}".format(
+                *(float(a) for a in np.degrees(info.angles))
+            )
         subs["DATA"] = data
         result = template["arc"].format(**subs)
 
